@@ -44,6 +44,8 @@ def wrap1(angle, wrap=360):
     """
     if wrap != 0:
         angle %= wrap  # wrap to full circle first
+        if angle == wrap:  # float rounding of tiny angle of opposite sign to wrap
+            angle -= wrap  # keep result in half open interval
     return angle
 
 def wrap2(angle, wrap = 180.0):
